@@ -18,6 +18,8 @@ def bad_values(obj, name, ann, default):
         wrong = SourceValue(3 * u.kg) if (dim is None or "[mass]" not in str(dim) or len(dim) > 1) else SourceValue(3 * u.s)
         if name == "fixed_nb_of_instances": wrong = SourceValue(3 * u.kg)
         out.append(("wrong-dimension", wrong))
+        # zero is not a wildcard: 0 of a wrong dimension is still a wrong dimension
+        out.append(("wrong-dimension:zero", SourceValue(0 * wrong.value.units)))
         if default is not None and hasattr(default.value, "units") and name not in type(obj).attributes_that_can_have_negative_values():
             out.append(("negative", SourceValue(-1 * default.value.units)))
         out.append(("wrong-type:float", 3.0))
